@@ -16,12 +16,14 @@ from ..acc import Acc
 ID = "C01"
 LEVEL = "exploration"
 TECHNIQUE = "bounded-exhaustive enumeration of MapSpec pipelines x inputs x storages against a reference denotation of the index notation"
-RULE = ("G-MAP: every pipeline of 1..2 functions (thorough: 3) over root sets {x[i]; x[i],y[i]; x[i],y[j]; x[i,j]; x[i,j],y[j]; x[i],n} "
-        "(thorough adds rank 3 and 2-D zips) where each consumer takes each array fully indexed / with one ':' / all ':' / whole, output axes in "
-        "every order (rank<=2) with 0..1 internal axis (thorough 2) at every position, 1 or 2 outputs, optional extra root (zip / outer / scalar), "
-        "no-MapSpec producers consumed through an index; distinct size per axis name (thorough: further size assignments); list and ndarray inputs; "
-        "storages dict (no folder), file_array, shared_memory_dict and per-output mixes. non-trivial = distinct pipeline shape with a mapped axis and "
-        "at least one of zip / outer product / ':' / internal axis / tuple output / full reduction")
+RULE = ("G-MAP base family: every pipeline of 1..2 functions over root sets {x[i]; x[i],y[i]; x[i],y[j]; x[i,j]; x[i,j],y[j]; x[i],n} where each consumer "
+        "takes each array fully indexed / with one ':' / all ':' / whole, output axes in every order with 0..1 internal axis per pipeline at every position, 1 or 2 "
+        "outputs, optional second array for the consumer (sibling output, a root again, new root zipped / outer / scalar), no-MapSpec producers consumed through an "
+        "index; a distinct size per axis name; list and ndarray inputs; dict storage for all, folder-backed file_array / mixes / shared_memory_dict for the "
+        "1-function pipelines and the consumers of `a` only; a second map on the same Pipeline object with other sizes; plus the family with TWO internal axes over "
+        "x[i]. Thorough adds, as separate complete families: every storage assignment for the whole base family, two internal axes over every root set, rank-3 and "
+        "2-D-zip roots, three further size assignments, and 3-function chains. non-trivial = distinct pipeline shape with a mapped axis and at least one of zip / "
+        "outer product / ':' / internal axis / tuple output / full reduction")
 ASSUMPTIONS = ["reference denotation vmc/gen_map.py:ref_map (~50 lines)", "uninterpreted term bodies: value equality is derivation equality",
                "sequential execution (schedules are C03's business)", "zarr storages cannot be imported in this sandbox"]
 BUDGET = {"quick": 80.0, "thorough": 900.0}
@@ -120,7 +122,7 @@ def cases_for(spec, tier):
     if len(spec["funcs"][0]["internal"]) == 2 and n == 2:
         yield {"spec": spec, "form": "ndarray", "storage": "file_array", "folder": True}
         return
-    if n == 1 or tier == "thorough" or len(spec["funcs"][1]["params"]) == 1:
+    if n == 1 or len(spec["funcs"][1]["params"]) == 1:
         # the same Pipeline object mapped twice with different input sizes
         yield {"spec": spec, "form": "list", "storage": "dict", "reuse": True}
     if n == 1:
@@ -134,54 +136,69 @@ def cases_for(spec, tier):
             yield {"spec": spec, "form": "list", "storage": {"a,b": "file_array", "": "dict"}, "folder": True}
     else:
         # quick bound for the (30 ms) folder-backed run: second function consumes only `a`; thorough: every pipeline
-        if tier == "thorough" or len(spec["funcs"][1]["params"]) == 1:
+        if len(spec["funcs"][1]["params"]) == 1:
             yield {"spec": spec, "form": "ndarray", "storage": "file_array", "folder": True}
-        if tier == "thorough":
-            first = ",".join(spec["funcs"][0]["outs"])
-            yield {"spec": spec, "form": "list", "storage": {first: "file_array", "": "dict"}, "folder": True}
-            yield {"spec": spec, "form": "list", "storage": {"c": "file_array", "": "shared_memory_dict"}, "folder": True}
+        pass
 
 
-def specs_for(stage, tier):
+SIZE_VARIANTS = {"sizes-111": dict.fromkeys("ijkuwm", 1), "sizes-321": {"i": 3, "j": 2, "k": 1, "u": 3, "w": 2, "m": 1},
+                 "sizes-133": {"i": 1, "j": 3, "k": 3, "u": 1, "w": 3, "m": 3}}
+
+
+def specs_for(stage, shard=None):
+    """the pipelines of a stage (optionally only one shard of the (root set, first function) pairs)"""
     if stage == "1-function":
-        for s in gen_map.pipelines(1, tier):
-            yield s
-    elif stage == "2-functions":
-        for s in gen_map.pipelines(2, tier):
+        yield from gen_map.pipelines(1, shard=shard)
+    elif stage in ("2-functions", "2-functions-all-storages"):
+        for s in gen_map.pipelines(2, shard=shard):
             if len(s["funcs"]) == 2:
-                yield s
-    elif stage == "3-functions":
-        for s in gen_map.pipelines(3, "quick"):
-            if len(s["funcs"]) == 3:
                 yield s
     elif stage == "2-internal-axes-over-x[i]":
         # quick-tier family with TWO internal axes (of different sizes) on the producer, at every position, and every
-        # consumer pattern (indexed / one ':' / all ':' / whole); the general generator has <= 1 internal axis in quick
-        sizes = dict(gen_map.DEFAULT_SIZES)
-        roots = {"x": ["i"]}
-        for f1 in gen_map.functions_over(roots, "f", [("a",)], {"i"}, ["u", "w"], 2, False, must_use=["x"], vias=("pipefunc",)):
-            if f1["ms"] is None or len(f1["internal"]) != 2:
-                continue
-            s1 = {"roots": roots, "sizes": sizes, "funcs": [f1]}
-            yield s1
-            for f2 in gen_map.functions_over({"a": tuple(f1["out_axes"])}, "g", [("c",)], {"i", "u", "w"}, ["m"], 0, False, must_use=["a"],
-                                             no_ms_internal=False):
-                yield {"roots": roots, "sizes": sizes, "funcs": [f1, f2]}
-    elif stage.startswith("sizes-"):
-        sz = {"sizes-111": dict.fromkeys("ijkuwm", 1), "sizes-321": {"i": 3, "j": 2, "k": 1, "u": 3, "w": 2, "m": 1},
-              "sizes-133": {"i": 1, "j": 3, "k": 3, "u": 1, "w": 3, "m": 3}}[stage]
-        for s in gen_map.pipelines(2, "quick", sizes=sz):
-            yield s
+        # consumer pattern (indexed / one ':' / all ':' / whole); the base family has <= 1 internal axis per pipeline
+        yield from gen_map.pipelines(2, roots_opts=[{"x": ["i"]}], f_internal=2, f_outs=[("a",)], extras="none", g_internal=0, shard=shard)
+    elif stage == "2-internal-axes-all-roots":
+        yield from gen_map.pipelines(2, f_internal=2, extras="none", g_internal=0, shard=shard)
+    elif stage == "rank3-and-2D-zip-roots":
+        yield from gen_map.pipelines(2, "thorough", roots_opts=gen_map.ROOT_SETS_THOROUGH[len(gen_map.ROOT_SETS_QUICK):], extras="none", shard=shard)
+    elif stage == "3-functions-chain":
+        for s in gen_map.pipelines(3, extras="none", f_outs=[("a",)], h_extras=(None,), shard=shard):
+            if len(s["funcs"]) == 3:
+                yield s
+    elif stage in SIZE_VARIANTS:
+        yield from gen_map.pipelines(2, sizes=SIZE_VARIANTS[stage], shard=shard)
+    else:
+        raise ValueError(stage)
 
 
-STAGES = {"quick": ["1-function", "2-functions", "2-internal-axes-over-x[i]"], "thorough": ["1-function", "2-functions", "sizes-111", "sizes-321", "sizes-133", "3-functions"]}
-NCHUNK = {"2-internal-axes-over-x[i]": 16, "1-function": 16, "2-functions": 240, "3-functions": 2000, "sizes-111": 240, "sizes-321": 240, "sizes-133": 240}
+STAGES = {"quick": ["1-function", "2-functions", "2-internal-axes-over-x[i]"],
+          "thorough": ["1-function", "2-functions-all-storages", "2-internal-axes-all-roots", "rank3-and-2D-zip-roots", "sizes-111", "sizes-321",
+                       "sizes-133", "3-functions-chain"]}
+NCHUNK = {"1-function": 16, "2-functions": 240, "2-internal-axes-over-x[i]": 16, "2-functions-all-storages": 440, "2-internal-axes-all-roots": 200,
+          "rank3-and-2D-zip-roots": 200, "sizes-111": 200, "sizes-321": 200, "sizes-133": 200, "3-functions-chain": 220}
+
+
+def cases_of_stage(stage, spec, tier):
+    if stage == "2-functions-all-storages":
+        first = ",".join(spec["funcs"][0]["outs"])
+        yield {"spec": spec, "form": "list", "storage": "dict"}
+        yield {"spec": spec, "form": "list", "storage": "dict", "reuse": True}
+        yield {"spec": spec, "form": "ndarray", "storage": "file_array", "folder": True}
+        yield {"spec": spec, "form": "list", "storage": {first: "file_array", "": "dict"}, "folder": True}
+        yield {"spec": spec, "form": "list", "storage": {"c": "file_array", "": "shared_memory_dict"}, "folder": True}
+    elif stage in ("2-internal-axes-all-roots", "rank3-and-2D-zip-roots"):
+        yield {"spec": spec, "form": "list", "storage": "dict"}
+        yield {"spec": spec, "form": "ndarray", "storage": "file_array", "folder": True}
+    elif stage in SIZE_VARIANTS or stage == "3-functions-chain":
+        yield {"spec": spec, "form": "list", "storage": "dict"}
+    else:
+        yield from cases_for(spec, tier)
 
 
 def plan(tier, seed):
     out = []
     for st in STAGES[tier]:
-        n = NCHUNK[st] * (8 if (tier == "thorough" and st == "2-functions") else 1)
+        n = NCHUNK[st]
         us = [(st, (st, tier, c, n)) for c in range(n)]
         r = seed % n
         out.extend(us[r:] + us[:r])
@@ -191,18 +208,21 @@ def plan(tier, seed):
 def run_unit(unit):
     st, tier, c, n = unit
     acc = Acc()
-    for k, spec in enumerate(specs_for(st, tier)):
-        if k % n != c:
-            continue
+    if st in ("2-functions-all-storages", "shared"):
+        from . import c03
+        c03._install_one_manager()
+    for k, spec in enumerate(specs_for(st, shard=(c, n))):
         nt = gen_map.nontrivial(spec)
         for f in gen_map.features(spec):
             acc.stratum("pipelines-with-" + f)
-        for case in cases_for(spec, tier):
+        for case in cases_of_stage(st, spec, tier):
             acc.case(gen_map.key(spec) if nt else None)
             acc.stratum("storage-" + (case["storage"] if isinstance(case["storage"], str) else "mix"))
+            if case.get("reuse"):
+                acc.stratum("second-map-on-same-pipeline")
             for sig, text in run_case(case):
                 acc.violation(sig, case, text)
-        if k % (n * 50) == c:
+        if k % 50 == 0:
             acc.sample({"mapspecs": [gen_map.spec_str(f) for f in spec["funcs"]], "roots": spec["roots"]})
     return acc
 
